@@ -2,10 +2,15 @@ package main
 
 import (
 	"fmt"
+	"os"
 	"runtime/debug"
 	"sort"
 	"strconv"
 	"strings"
+	"sync"
+	"sync/atomic"
+	"syscall"
+	"time"
 
 	"github.com/nlnwa/whatwg-url/errors"
 	"github.com/nlnwa/whatwg-url/url"
@@ -52,6 +57,8 @@ type Event struct {
 	Panic    string // signature: top library frame
 	PanicMsg string
 	Hang     bool
+	Blocked  bool   // Hang, and not by the statement budget: the call blocked (see World.guarded)
+	BlockedIn string
 	Contract string // C02 contract breach description
 	Steps    int64
 	Mut      bool
@@ -63,6 +70,7 @@ type World struct {
 	Cfg         Config
 	P           url.Parser // nil => package-level functions (the default parser)
 	Cfg2        *Config
+	guard       bool // run library calls on a helper goroutine and detect blocking (C02)
 	P2          url.Parser // second parser (cross-parser resolution), nil if the plan has none
 	U           map[int]*UH
 	S           map[int]*SH
@@ -240,8 +248,115 @@ func readGetters(u *url.Url, mask int) {
 	}
 }
 
-// exec performs one operation against the real library. It never panics.
+// blockPatience: a guarded call that has not returned, has executed no instrumented statement and
+// has used (almost) no CPU for this long is blocked (VERIF_BLOCK_MS overrides; shorter while
+// shrinking a blocked plan).
+var blockPatience = 10 * time.Second
+
+func init() {
+	if v := os.Getenv("VERIF_BLOCK_MS"); v != "" {
+		if n, err := strconv.Atoi(v); err == nil && n > 0 {
+			blockPatience = time.Duration(n) * time.Millisecond
+		}
+	}
+}
+
+func cpuTime() time.Duration {
+	var ru syscall.Rusage
+	if syscall.Getrusage(syscall.RUSAGE_SELF, &ru) != nil {
+		return 0
+	}
+	return time.Duration(ru.Utime.Nano() + ru.Stime.Nano())
+}
+
+// guarded runs f on its own goroutine and tells whether it blocked. worldsim is single-threaded:
+// if the goroutine that runs a library call is waiting for something, nobody exists who could
+// provide it - the call will never return (a lock taken twice, a lock held across a callback that
+// re-enters). The step budget cannot see that (no statement is executed), a clock can: no
+// instrumented statement for blockPatience AND no CPU used meanwhile (a long computation inside a
+// single statement, e.g. in a dependency, burns CPU and is left to the budget and the driver's
+// watchdog). The goroutine is abandoned; the run ends there.
+func (w *World) guarded(f func()) (blocked bool) {
+	if !w.guard {
+		f()
+		return false
+	}
+	gOnce.Do(func() { go guardWatchdog() })
+	if gWork == nil {
+		// a persistent helper goroutine runs the calls (its stack stays grown); one that blocks is
+		// abandoned and replaced
+		gWork, gDone = make(chan func()), make(chan struct{})
+		go func(work chan func(), done chan struct{}) {
+			for f := range work {
+				f()
+				done <- struct{}{}
+			}
+		}(gWork, gDone)
+	}
+	gCounter++
+	seq := gCounter
+	atomic.StoreInt64(&gSeq, seq)
+	gWork <- f
+	for {
+		select {
+		case <-gDone:
+			atomic.StoreInt64(&gSeq, 0)
+			return false
+		case s := <-gBlocked:
+			if s == seq {
+				atomic.StoreInt64(&gSeq, 0)
+				gWork, gDone = nil, nil
+				return true
+			}
+		}
+	}
+}
+
+var (
+	gOnce    sync.Once
+	gWork    chan func()
+	gDone    chan struct{}
+	gCounter int64
+	gSeq     int64 // the guarded call in flight (0: none); read by the watchdog
+	gBlocked = make(chan int64, 1)
+)
+
+// guardWatchdog: one per process; no timers on the calling path.
+func guardWatchdog() {
+	const tick = 50 * time.Millisecond
+	var seq0, cnt0 int64
+	var stalled time.Duration
+	cpu0 := cpuTime()
+	for {
+		time.Sleep(tick)
+		seq, cnt := atomic.LoadInt64(&gSeq), atomic.LoadInt64(&rt.Count)
+		if seq == 0 || seq != seq0 || cnt != cnt0 {
+			seq0, cnt0, stalled, cpu0 = seq, cnt, 0, cpuTime()
+			continue
+		}
+		stalled += tick
+		if stalled >= blockPatience {
+			if cpuTime()-cpu0 < blockPatience/10 {
+				select {
+				case gBlocked <- seq:
+				default:
+				}
+			}
+			stalled, cpu0 = 0, cpuTime() // (else: busy inside one statement, not blocked)
+		}
+	}
+}
+
+// exec performs one operation against the real library. It never panics and, in guarded worlds,
+// never blocks.
 func (w *World) exec(i int, op Op) (ev Event) {
+	if w.guarded(func() { ev = w.execInline(i, op) }) {
+		return Event{I: i, Op: op, Target: -1, TargetS: -1, Created: -1, CreatedS: -1, Read: -1, Hang: true, Blocked: true}
+	}
+	return ev
+}
+
+func (w *World) execInline(i int, op Op) (ev Event) {
 	ev = Event{I: i, Op: op, Target: -1, TargetS: -1, Created: -1, CreatedS: -1, Read: -1}
 	argLen := len(op.A) + len(op.B)
 	if uh := w.U[op.H]; uh != nil && !strings.HasPrefix(op.K, "sp.") {
@@ -464,6 +579,28 @@ func (w *World) exec(i int, op Op) (ev Event) {
 					}
 				case 2:
 					p.Name += a
+				// 3..8 (C02): the callback reads from the list it is iterating or from the URL that owns
+				// it - what a caller does to spot duplicates, resolve a value, log progress
+				case 3:
+					_ = sh.SP.Has(p.Name)
+					_ = sh.SP.Get(p.Name)
+				case 4:
+					_ = sh.SP.String()
+				case 5:
+					if uh := w.U[sh.Of]; uh != nil {
+						_ = uh.U.Href(false)
+						_ = uh.U.Search()
+					}
+				case 6:
+					if uh := w.U[sh.Of]; uh != nil {
+						_ = uh.U.Clone()
+					}
+				case 7:
+					if uh := w.U[sh.Of]; uh != nil {
+						_, _ = uh.U.Parse(p.Value)
+					}
+				case 8:
+					_ = sh.SP.GetAll(p.Name)
 				}
 			})
 		}
@@ -610,6 +747,7 @@ func unobservedRun(plan *Plan, w *World, chk Checker) *Failure {
 	b := newWorld(plan.Cfg)
 	b.Cfg2, b.P2 = w.Cfg2, w.P2
 	b.quiet = true
+	b.guard = w.guard
 	b.limits = w.limits
 	_, isC02 := chk.(*c02Checker)
 	k := 0
@@ -731,6 +869,7 @@ func runWorld(plan *Plan, mk func() Checker, kf *KnownFindings, keepLog bool) (r
 	chk := mk()
 	if _, ok := chk.(*c02Checker); ok {
 		w.touchErrors = true
+		w.guard = true
 	}
 	if _, ok := chk.(*c13Checker); ok {
 		w.wantVE = true
@@ -762,7 +901,11 @@ func runWorld(plan *Plan, mk func() Checker, kf *KnownFindings, keepLog bool) (r
 		}
 		gp := ""
 		if ev.Panic == "" && !ev.Hang {
-			gp = w.refresh()
+			if w.guarded(func() { gp = w.refresh() }) {
+				ev.Hang, ev.Blocked, gp = true, true, ""
+				ev.Contract = ""
+				ev.BlockedIn = "a getter after the operation"
+			}
 		}
 		if ev.Panic != "" || ev.Hang || gp != "" || ev.Contract != "" {
 			// totality is C02's business; every other check just stops the run here
@@ -830,14 +973,23 @@ func runWorld(plan *Plan, mk func() Checker, kf *KnownFindings, keepLog bool) (r
 		}
 		var fs []Failure
 		var cp string
-		func() {
+		if w.guarded(func() {
 			defer func() {
 				if e := recover(); e != nil {
 					cp = libFrame(string(debug.Stack())) + ": " + fmt.Sprint(e)
 				}
 			}()
 			fs = chk.After(w, &ev)
-		}()
+		}) {
+			ev.Hang, ev.Blocked, ev.BlockedIn = true, true, "a read accessor after the operation"
+			if c2, ok := chk.(*c02Checker); ok {
+				if v := triage(c2.Totality(w, &ev, ""), kf, plan.Prop, &res, i); v != nil {
+					res.Viol = v
+				}
+			}
+			h.add("abort")
+			break
+		}
 		if cp != "" {
 			if _, ok := chk.(*c02Checker); ok {
 				fs = append(fs, fail("C02.panic", "frame", strings.SplitN(cp, ": ", 2)[0], "msg", cp, "where", "oracle read"))
